@@ -938,6 +938,14 @@ lydxml_subtree_any(struct lyd_xml_ctx *lydctx, const struct lysc_node *snode, co
         r = lyxml_ctx_next(xmlctx);
         LY_CHECK_ERR_GOTO(r, rc = r, cleanup);
 
+        if (xmlctx->status == LYXML_ELEMENT) {
+            /* mixed content */
+            LOGVAL(xmlctx->ctx, LYVE_SYNTAX, "Child element \"%.*s\" after the text value of anyxml node \"%s\" found.",
+                    (int)xmlctx->name_len, xmlctx->name, snode->name);
+            rc = LY_EVALID;
+            goto cleanup;
+        }
+
         /* create node */
         r = lyd_create_any(snode, val, LYD_ANYDATA_STRING, 1, node);
         LY_CHECK_ERR_GOTO(r, rc = r, cleanup);
